@@ -1,5 +1,5 @@
-\* spec mutation (W_Avail = FALSE  W_Overhead = TRUE  W_Ports = TRUE  W_KeepTerm = TRUE  W_Override = TRUE  W_Refilter = TRUE): TLC must violate Inv_C01_EveryLaunchOptionHostsItsPods
+\* spec mutation (W_Avail = FALSE  W_Overhead = TRUE  W_Ports = TRUE  W_KeepTerm = TRUE  W_Override = TRUE  W_Refilter = TRUE  W_InitTaints = TRUE): TLC must violate Inv_C01_EveryLaunchOptionHostsItsPods
 CONSTANTS NPods = 1  PodArchs = {11}  Catalogs = {2}  PoolSets = {1}  Existings = {0}  Daemons = {0}
-CONSTANTS W_Avail = FALSE  W_Overhead = TRUE  W_Ports = TRUE  W_KeepTerm = TRUE  W_Override = TRUE  W_Refilter = TRUE
+CONSTANTS W_Avail = FALSE  W_Overhead = TRUE  W_Ports = TRUE  W_KeepTerm = TRUE  W_Override = TRUE  W_Refilter = TRUE  W_InitTaints = TRUE
 SPECIFICATION Spec
 INVARIANTS Inv_C01_NoOvercommit Inv_C01_EveryLaunchOptionHostsItsPods Inv_C01_RequiredTermNeverDropped
